@@ -1,5 +1,5 @@
 (* C16 — Resume policy governs the algorithm service's lifetime; restart only when allowed.  Per-reconcile theorems. *)
-From KV Require Import Base.Prelude Base.Cond Model.World Proofs.WorldPlan Proofs.WorldInv2 Proofs.WorldQuiet.
+From KV Require Import Base.Prelude Base.Cond Model.World Proofs.WorldPlan Proofs.WorldInv2 Proofs.WorldInv5 Proofs.WorldQuiet Proofs.WorldSucc.
 Open Scope Z_scope.
 
 (* A suggestion reconcile that sees the Suggestion Succeeded performs no algorithm call and nothing but the deletion
@@ -45,3 +45,21 @@ Theorem C16_pvc_kept : forall w resp k onf,
   In (WInfraDelete k, onf) (fst (plan_sug w resp)) -> k = IDep \/ k = ISvc.
 Proof. exact plan_sug_deletes. Qed.
 Print Assumptions C16_pvc_kept.
+
+(* The experiment controller withdraws the Succeeded condition of the suggestion (restartSuggestion) only on behalf of an
+   enabled restart of the experiment it is looking at, and only under FromVolume: every planned suggestion-status write
+   that is not Succeeded comes from the restart branch. *)
+Theorem C16_sug_restart_only_when_enabled : forall cf e sug ws st1 stop st rv onf,
+  plan_exp_completed cf e sug = (ws, st1, stop) -> In (WSugStatus st rv, onf) ws -> s_is st SSucceeded = false ->
+  restart_enabled_e cf e = true /\ c_resume cf = FromVolume.
+Proof. exact sug_restart_only_when_enabled. Qed.
+Print Assumptions C16_sug_restart_only_when_enabled.
+
+(* Never and LongRunning, every reachable state: a Succeeded suggestion goes with a completed experiment under Never, and
+   under LongRunning the suggestion is never Succeeded (the algorithm service is not cleaned up). *)
+Theorem C16_succeeded_only_after_completion : forall c acts s,
+  valid_cfg c -> no_teardown acts -> c_resume c <> FromVolume ->
+  w_sug (run c acts) = Some s -> s_is (s_st s) SSucceeded = true ->
+  c_resume c = Never /\ exists e, w_exp (run c acts) = Some e /\ e_completed (e_st e) = true.
+Proof. exact succeeded_implies_verdict. Qed.
+Print Assumptions C16_succeeded_only_after_completion.
